@@ -4,6 +4,8 @@
 //!   harness replay                              read input encodings from stdin, run them, print cases
 mod civil;
 mod common;
+mod gens;
+mod arith;
 mod c01;
 
 use common::*;
@@ -11,6 +13,9 @@ use std::io::{BufRead, Write};
 
 fn run_input(inp: &Input) -> Obs {
     if let Some(o) = c01::run(inp) {
+        return o;
+    }
+    if let Some(o) = arith::run(inp) {
         return o;
     }
     panic!("unknown op {}", inp.op);
@@ -29,6 +34,10 @@ fn main() {
             let mut g = Gen { rng: Rng(seed ^ 0xA5A5_5A5A_0000_0000), out: vec![] };
             match prop {
                 "C01" => c01::generate(&mut g, tier),
+                "C03" => gens::gen_c03(&mut g, tier),
+                "C04" => gens::gen_c04(&mut g, tier),
+                "C06" => gens::gen_c06(&mut g, tier),
+                "C08" => gens::gen_c08(&mut g, tier),
                 _ => {
                     eprintln!("unknown property {}", prop);
                     std::process::exit(2);
